@@ -582,7 +582,14 @@ void mt_raise(int sig, int thr)
 		th[thr].sigpending |= 1ULL << sig;
 		return;
 	}
-	/* process-directed: the lowest-numbered live thread that does not block it, else thread 0 */
+	/* process-directed: the lowest-numbered live thread that does not block it and is not parked in a join (such a
+	   thread reaches no yield point of this scheduler any more; the kernel would pick a thread that can take the
+	   signal), else any live thread that does not block it, else thread 0 */
+	for (t = 0; t < nthr; t++)
+		if (th[t].used && !th[t].finished && th[t].blocked != BLK_JOIN && !(th[t].sigmask & (1ULL << sig))) {
+			th[t].sigpending |= 1ULL << sig;
+			return;
+		}
 	for (t = 0; t < nthr; t++)
 		if (th[t].used && !th[t].finished && !(th[t].sigmask & (1ULL << sig))) {
 			th[t].sigpending |= 1ULL << sig;
